@@ -607,11 +607,10 @@ def coq_legacy_case(fname, jr, f, t, tr):
             f"(mklo {search} {exprs} {dyns} {fname}) {coq_xn(tr['norm'])}")
 
 
-def run_coq_cases(name, defs, rows, chunk=350):
-    """defs: list of (defname, coq term) shared definitions per row group; rows: list of (defnames_needed, coq_expr).
-    Returns (failing: list of (row index, [codes])) or (None, err)."""
-    bad = []
-    for off in range(0, len(rows), chunk):
+def run_coq_cases(name, defs, rows, chunk=300, nproc=3):
+    """defs: {defname: coq term}; rows: list of (defnames_needed, coq_expr evaluating to a list of failing part codes).
+    Returns (failing: list of (row index, [codes]), '') or (None, err)."""
+    def one(off):
         part = rows[off:off + chunk]
         need = []
         for dn, _ in part:
@@ -626,9 +625,16 @@ def run_coq_cases(name, defs, rows, chunk=350):
         if rc != 0 or not m:
             return None, (out + err)[-1500:]
         txt = m.group(1).replace('%nat', '').replace('\n', ' ')
-        for mm in re.finditer(r'\(\s*(\d+)\s*,\s*\[([^\]]*)\]\s*\)', txt):
-            bad.append((off + int(mm.group(1)), [int(x) for x in mm.group(2).split(';') if x.strip()]))
-    return bad, ''
+        return [(off + int(mm.group(1)), [int(x) for x in mm.group(2).split(';') if x.strip()])
+                for mm in re.finditer(r'\(\s*(\d+)\s*,\s*\[([^\]]*)\]\s*\)', txt)], ''
+    offs = list(range(0, len(rows), chunk))
+    bad = []
+    with concurrent.futures.ThreadPoolExecutor(max(1, min(nproc, len(offs) or 1))) as ex:
+        for b, err in ex.map(one, offs):
+            if b is None:
+                return None, err
+            bad += b
+    return sorted(bad), ''
 
 
 # ---------------------------------------------------------------------------------------------------
